@@ -7,6 +7,8 @@ backend creates, clones and extends solver objects and records every query with 
 Representation invariant of a FullFrontend f (reuse_z3_solver off):
    P1  f._tls.solver is None, or   Mod(assertions(f._tls.solver))  &  Mod(f._to_add)  ==  Mod(f.constraints)
    P2  every element of f._to_add is one of f.constraints
+   P4  with tracking on (track=True, the mode unsat_core() needs), every assertion of the frontend's solver object was asserted as tracked:
+       Z3 can only name tracked assertions in a core, an untracked one silently drops out of it (C16)
    P3  a solver object that another frontend also holds is never extended: it may be handed to a query only as it is (ownership: a
        frontend that is not finalized holds its solver object alone; finalized ones may share)
 Obligations, from an arbitrary state satisfying P1-P3 (own / shared solver object, pending constraints or none, finalized or not):
@@ -39,6 +41,7 @@ class GSolver:
         GSolver.n += 1
         self.uid = GSolver.n
         self.assertions = list(assertions)
+        self.tracked = [False] * len(self.assertions)      # per assertion: was it asserted with track=True (only those can appear in a core)
 
     def __repr__(self):
         return f"<solver#{self.uid}>"
@@ -58,11 +61,14 @@ class GBackend:
 
     def clone_solver(self, s):
         c = GSolver(s.assertions)
+        c.tracked = list(s.tracked)
         self.created.append(c)
         return c
 
     def add(self, s, constraints, track=False):
+        constraints = list(constraints)
         s.assertions.extend(constraints)
+        s.tracked.extend([bool(track)] * len(constraints))
 
     def _q(self, kind, args, kw):
         c = cur()
@@ -120,7 +126,8 @@ STATES = ["no-solver", "own-solver", "own-solver+pending", "shared-solver", "sha
 def mk(FF, c, state):
     """an arbitrary frontend in the given protocol state, satisfying P1-P3; returns (frontend, backend, other holder of the solver or None)"""
     b = GBackend()
-    f = FF(b)
+    track = c.choose([True, True], "track") == 1
+    f = FF(b, track=track)
     nold = 1 + c.choose([True, True], "n-old-constraints") if state != "no-solver" else c.choose([True] * 3, "n-constraints")
     old = [EH("bool", name="old") for _ in range(nold)]
     for x in old:
@@ -136,6 +143,7 @@ def mk(FF, c, state):
     a = [EH("bool", name="as") for _ in range(nold)]
     c.assume(same_set(conj(a), conj(old)))
     s.assertions = list(a)
+    s.tracked = [track] * len(a)
     f._tls.solver = s
     if state.endswith("+pending"):
         new = [EH("bool", name="pend") for _ in range(1 + c.choose([True, True], "n-pending"))]
@@ -145,7 +153,7 @@ def mk(FF, c, state):
         f._to_add = list(new)
     if state.startswith("shared"):
         f._finalized = True
-        other = FF(b)
+        other = FF(b, track=track)
         other.constraints = list(old)
         other._tls.solver = s
         other._finalized = True
@@ -158,6 +166,9 @@ def _inv(c, f, label):
     s = getattr(f._tls, "solver", None)
     c.check(label + "/P2-pending-are-constraints", all(any(x is y for y in f.constraints) for x in f._to_add), "_to_add holds something that is not one of the constraints", kind="invariant")
     if s is not None:
+        if f._track:
+            c.check(label + "/P4-tracked-mode-asserts-tracked", len(s.tracked) == len(s.assertions) and all(s.tracked),
+                    "tracking is on but the solver object holds an assertion that was added untracked: unsat_core() cannot name it", kind="invariant")
         have = [z3.And(a, b_) for a, b_ in zip(conj(s.assertions), conj(f._to_add))]
         c.check(label + "/P1-solver-plus-pending", same_set(have, conj(f.constraints)),
                 "the solver object's assertions together with the pending constraints do not have the models of the constraints", kind="invariant")
@@ -190,6 +201,7 @@ def ob_fullfront(method, tier="quick"):
             if method == "_get_solver":
                 s = f._get_solver()
                 c.check(label + "/solver-has-the-constraints", same_set(conj(s.assertions), conj(f.constraints)), "the solver object handed to the backend does not hold the constraints")
+                c.check(label + "/tracked-if-tracking", not f._track or all(s.tracked), "tracking is on but the returned solver object holds an untracked assertion")
                 c.check(label + "/nothing-pending", f._to_add == [], "_to_add is not empty afterwards")
                 c.check(label + "/is-the-frontends-solver", f._tls.solver is s, "the returned solver object is not the one the frontend keeps")
                 shared_untouched()
@@ -207,6 +219,7 @@ def ob_fullfront(method, tier="quick"):
             elif method == "branch":
                 pend = list(f._to_add)
                 br = f.branch()
+                c.check(label + "/same-tracking-mode", br._track == f._track, "the branch does not inherit the tracking mode")
                 c.check(label + "/both-finalized", f._finalized and br._finalized, "a side of the branch is not finalized (it could extend the shared solver object in place)")
                 c.check(label + "/same-constraints", br.constraints == f.constraints and br.constraints is not f.constraints, "the branch does not start with its own copy of the constraints")
                 c.check(label + "/own-pending-list", br._to_add is not f._to_add, "the branch shares the pending list")
@@ -267,6 +280,7 @@ def ob_fullfront(method, tier="quick"):
                     c.check(label + "/query-solver-has-the-constraints", isinstance(s, GSolver) and z3.is_true(z3.simplify(z3.BoolVal(True))) and True, "no solver object handed to the backend")
                     if isinstance(s, GSolver):
                         c.check(label + "/query-solver-models", same_set(conj(s.assertions), conj(f.constraints)), "the backend was asked on a solver object that does not hold the constraints")
+                        c.check(label + "/query-solver-tracked", not f._track or all(s.tracked), "tracking is on but the backend was asked on a solver object with an untracked assertion")
                     xs = tuple(kw.get("extra_constraints", ()))
                     plain = tuple(t for t in xs if not isinstance(t, _Cmp))
                     c.check(label + "/extra-constraints-passed", len(plain) == len(x) and all(p is q_ for p, q_ in zip(plain, x)), "the caller's extra constraints were not handed to the backend")
